@@ -7,7 +7,8 @@ import subprocess
 import vcheck
 
 OVERLAY = {"cmd/verif_pickle/main.go": "main.go", "cmd/verif_pickle/gen.go": "gen.go",
-           "cmd/verif_pickle/graph.go": "graph.go", "pickle/verif_export.go": "export.go"}
+           "cmd/verif_pickle/graph.go": "graph.go", "cmd/verif_pickle/rec.go": "rec.go",
+           "pickle/verif_export.go": "export.go", "verif_pickle_export.go": "dawn_export.go"}
 
 
 def harness(c):
@@ -44,7 +45,7 @@ def correspond(c, stream, drv, pairs):
         outs = orig(exe, lines, timeout)
         res = []
         for m, (_, g) in zip(outs, pairs):
-            if m == "either" and (g == "err" or g.startswith("ok ")):
+            if m.startswith("either ") and (g == "err" or g.split(" ")[0] == m.split(" ")[1]):
                 undecided[0] += 1
                 res.append(g)
             else:
